@@ -28,10 +28,26 @@ import (
 )
 
 const (
-	verifDir = "/verif"
-	repoDir  = "/repo"
-	goBin    = "/opt/veriftools/go1.26.8/bin"
+	repoDir = "/repo"
+	goBin   = "/opt/veriftools/go1.26.8/bin"
 )
+
+// verifDir is the directory the framework lives in: the parent of bin/ next to this executable
+// (so that a snapshot of /verif works on its own files).
+var verifDir = func() string {
+	exe, err := os.Executable()
+	if err == nil {
+		if d := filepath.Dir(filepath.Dir(exe)); fileExists(filepath.Join(d, "harness", "go.mod")) {
+			return d
+		}
+	}
+	return "/verif"
+}()
+
+func fileExists(p string) bool {
+	_, err := os.Stat(p)
+	return err == nil
+}
 
 type propSpec struct {
 	Engine   string
